@@ -92,6 +92,7 @@ type Frame struct {
 	Depth   int
 	OnReturn func(s *State, vals []Value) ([]*State, bool) // continuation run instead of binding the result (engine-built calls)
 	LoopFrames map[*ssa.BasicBlock]map[string]*loopFrame // user-declared loop frames to re-check at the back edge
+	LoopWM     map[*ssa.BasicBlock]Term                  // allocation watermark when the loop was entered (sinceloop)
 	LoopOld map[*ssa.BasicBlock]*Snapshot
 	LoopVariant map[*ssa.BasicBlock]string
 }
@@ -173,6 +174,10 @@ func (f *Frame) cloneChain() *Frame {
 	n.LoopOld = make(map[*ssa.BasicBlock]*Snapshot, len(f.LoopOld))
 	for k, v := range f.LoopOld {
 		n.LoopOld[k] = v
+	}
+	n.LoopWM = make(map[*ssa.BasicBlock]Term, len(f.LoopWM))
+	for k, v := range f.LoopWM {
+		n.LoopWM[k] = v
 	}
 	n.LoopFrames = make(map[*ssa.BasicBlock]map[string]*loopFrame, len(f.LoopFrames))
 	for k, v := range f.LoopFrames {
